@@ -204,3 +204,20 @@ LEVEL_TEXT["C17"] = {
     "note": "Sequentially consistent interleavings at hook granularity, sampled from generated tapes; memory-order bugs that need store-buffer effects are not reachable.",
     "technique": "property-based testing with harness-owned deterministic schedules + sequential reference model (differential)",
 }
+
+PROPS["C04"] = {
+    "targets": [vt("props/C04_rw_mutex_vt.cpp", 15000, 60, 200000, 600)],
+    "rule": "case = request sequence over {read, readwrite} of length 1..8 issued by one logical thread (as the API requires) x per request a "
+            "starter thread, an action (connect+start / drop the sender unstarted / additionally start a copy of the read sender), start "
+            "delay, hold time, optional copy of the read wrapper released later x optional early destruction of the mutex x schedule tape "
+            "with decision points in add_op_state (before the CAS) and done() (around the exchange); non-trivial iff >=2 access groups and "
+            "(a read group with >=2 reads or an unstarted drop) and the schedule really interleaved the threads; distinct by hash",
+    "floor": {"quick": 200, "thorough": 2000},
+    "assumptions": ["accesses dropped unstarted are granted/released by start_detached invisibly to the harness; order oracles range over observed accesses",
+                    "SC interleavings at hook/agent granularity"],
+}
+LEVEL_TEXT["C04"] = {
+    "text": "The real async_rw_mutex<int> runs on harness-owned virtual threads: generated request sequences, starter placement, drops, sender and wrapper copies and early mutex destruction under generated schedules with decision points inside the lock-free queue hand-off. Oracles over the grant/release log: no read-write access overlaps anything, reads overlap only reads of the same group, no access is granted before all observed accesses of earlier groups are released, each started access is granted exactly once and eventually (a waiting access in an all-blocked state is reported exactly), and every access observes the number of earlier read-write increments (value outlives the mutex).",
+    "note": "Schedules sampled from generated tapes; SC interleavings at hook granularity.",
+    "technique": "property-based testing with harness-owned deterministic schedules, grant/release history invariants",
+}
